@@ -232,6 +232,10 @@ class FormulaParser:
                 if token.ttype.endswith('-prefix') and token.tvalue == "-":
                     o1 = OPERATORS['u-']
 
+                elif token.tsubtype == "percent":
+                    # "x%" is tokenized as "x * 0.01"
+                    o1 = OPERATORS['%']
+
                 else:
                     o1 = OPERATORS[token.tvalue]
 
@@ -241,6 +245,9 @@ class FormulaParser:
                             and stack[-1].tvalue == "-"
                     ):
                         o2 = OPERATORS['u-']
+
+                    elif stack[-1].tsubtype == "percent":
+                        o2 = OPERATORS['%']
 
                     else:
                         o2 = OPERATORS[stack[-1].tvalue]
